@@ -188,7 +188,7 @@ def build(repo, workdir, props):
             E.functions.append("Modifiers::%s" % name)
             Q.append(("C11", "predicate_%s" % name, ["(not (= %s %s))" % (t, ref)], ["m_" + x for x in MODS]))
 
-    need_layouts = any(p in props for p in ("C03", "C09", "C10", "C11", "C12", "C15", "C16", "C17"))
+    need_layouts = any(p in props for p in ("C03", "C08", "C09", "C10", "C11", "C12", "C15", "C16", "C17"))
     if need_layouts:
         for ty in layouts:
             E.layout(ty)
@@ -396,7 +396,32 @@ def build(repo, workdir, props):
                     if x[c] != 0xFF:
                         pre_terms.append("(and (= c2 %s) (= (%s_tag %s) %s) (= (%s_ok %s) (%s_ok c2)))" % (bvc(x[c], 8), a, bvc(c, 8), OK, a, bvc(c, 8), b))
                 Q.append(("C13", "backward_tables_%s" % short, exb + ["(= (%s_tag c2) %s)" % (b, OK), "(not (or %s))" % " ".join(pre_terms)], ["c2"]))
-    Q += [(q[0].split("_")[0] if False else "C08", q[0], q[1], q[2]) for q in []]
+    if "C08" in props:
+        # panic freedom of the leaf functions: every assert/unreachable terminator met on some path is infeasible
+        f = E.ctx.find("Ps2Decoder", "check_word")
+        paths = M.execute(E.ctx, f, [V("bv", term="w", w=16)])
+        pan = [c for c, v in paths if isinstance(v, tuple)]
+        E.functions.append("Ps2Decoder::check_word (%d paths, %d with a panic terminator)" % (len(paths), len(pan)))
+        Q.append(("C08", "panicfree_check_word_all_u16", ["(or %s)" % " ".join(pan + ["false"])], ["w"]))
+        for mod in ("set1", "set2"):
+            for fname in ("map_scancode", "map_extended_scancode", "map_extended2_scancode"):
+                f = E.ctx.find(mod, fname)
+                paths = M.execute(E.ctx, f, [V("bv", term="c", w=8)])
+                pan = [c.replace(" c)", " c1)").replace("(= c ", "(= c1 ") for c, v in paths if isinstance(v, tuple)]
+                E.functions.append("%s::%s (%d paths, %d with a panic terminator)" % (mod, fname, len(paths), len(pan)))
+                Q.append(("C08", "panicfree_%s_%s" % (mod, fname), ["(or %s)" % " ".join(pan + ["false"])], ["c1"]))
+        for name in ("is_shifted", "is_ctrl", "is_alt", "is_altgr", "is_caps"):
+            f = E.ctx.find("Modifiers", name)
+            paths = M.execute(E.ctx, f, [V("ref", target=M.sym_mods("m"))])
+            pan = [c for c, v in paths if isinstance(v, tuple)]
+            Q.append(("C08", "panicfree_Modifiers_%s" % name, ["(or %s)" % " ".join(pan + ["false"])], []))
+        got = {q[0] for q in E.panic_queries}
+        for ty in layouts:
+            if "panicfree_%s" % ty in got:
+                continue
+            E.panic_queries.append(("panicfree_%s" % ty, ["false"], []))  # no panic terminator on any path
+        for n, a, g in E.panic_queries:
+            Q.append(("C08", n, a, g))
     decls = common_decls(E.keys) + E.defs
     return E, decls, Q
 
